@@ -54,7 +54,7 @@ def layer(draw, mono):
     if k == 'roll':
         return [k, draw(st.integers(1, 5)), draw(st.integers(1, 5))]
     if k == 'split':
-        return [k, draw(st.sampled_from(['div', 'mod', 'nonemod', 'gkey', 'nanmod', 'tokdiv'])), draw(st.integers(2, 3))]
+        return [k, draw(st.sampled_from(['div', 'mod', 'nonemod', 'gkey', 'nanmod', 'tokdiv', 'bigf'])), draw(st.integers(2, 3))]
     return [k, draw(st.sampled_from([None, 1, 3, 5])), draw(st.sampled_from([None, 1, 2, 3])),
             draw(st.one_of(st.none(), st.tuples(st.integers(2, 4), st.integers(0, 1)).map(list))), draw(st.booleans())]
 
